@@ -275,8 +275,20 @@ def gen_bad_response(rng):
         else:
             raw = b"HTTP/1.1 200 OK\r\nContent-Type: " + ctype + b"\r\nContent-Length: %d\r\n\r\n" % len(body) + body
         return raw, raw, "jsonbody", False
+    if r < 0.42:
+        # a well-formed redirect whose Location value is a damaged url (bracket lost, port digits replaced or out of
+        # range) or, as the control, a fine relative reference to the same server
+        loc = rng.choice(BAD_LOCATIONS)
+        status = rng.choice([b"301 Moved Permanently", b"302 Found", b"303 See Other", b"307 Temporary Redirect"])
+        raw = b"HTTP/1.1 " + status + b"\r\nLocation: " + loc + b"\r\nContent-Length: 0\r\n\r\n"
+        return raw, raw, "location", False
     data, op = hg.mutate(rng, valid)
     return valid, data, op, False
+
+
+BAD_LOCATIONS = [b"http://[::1/x", b"http://127.0.0.1:99999/x", b"http://127.0.0.1:8o80/x", b"http://[fe80::1%eth0/x",
+                 b"http://127.0.0.1:-5/x", b"http://[::1]:x/", b"/ok/relative", b"relative?q=1", b"http://127.0.0.1:65536/",
+                 b"http://[/x", b"//[::1/y"]
 
 
 def client_case(ctx, rng, idx, deadline):
